@@ -52,26 +52,107 @@ theorem ensure_lim (coll : String → Nat → Option DErr) (hc : CollLawful coll
       | none => left; rfl
       | some er => right; exact ⟨er, rfl, hc _ _ _ h⟩
     · left; rfl
+  | caseWhen c t e ihc iht ihe =>
+    simp only [ensure]
+    exact seq_lim _ _ _ _ ihc (seq_lim _ _ _ _ iht ihe)
+  | existsSub i => left; rfl
+  | single e ih => simpa only [ensure] using ih
 
-theorem deval_lim (coll : String → Nat → Option DErr) (hc : CollLawful coll) (e : DE) (env row : DRow) :
-    deval coll e env row = deval (fun _ _ => none) e env row ∨
-      ∃ er, deval coll e env row = .error er ∧ er.isLimit = true := by
-  unfold deval
-  rcases ensure_lim coll hc env row e with h | ⟨er, he, hl⟩
-  · left; rw [h]
-  · right; exact ⟨er, by rw [he], hl⟩
+/-- how the EXISTS subqueries answer under a collection check: as without it, or they fail with a limit error -/
+def ExLawful (X : (String → Nat → Option DErr) → ExFn) (coll : String → Nat → Option DErr) : Prop :=
+  ∀ i env row, X coll i env row = X (fun _ _ => none) i env row ∨
+    ∃ e, X coll i env row = .failed e ∧ e.isLimit = true
 
-theorem aggValue_lim (coll : String → Nat → Option DErr) (hc : CollLawful coll) (env : DRow)
-    (rows : List DRow) (a : DAgg) :
-    aggValue coll env rows a = aggValue (fun _ _ => none) env rows a ∨
-      ∃ er, aggValue coll env rows a = .error er ∧ er.isLimit = true := by
+/-- evaluation under the check vs without it: nothing parked on either side and the same value, or
+    a first parked failure that is the unlimited run's or a limit error -/
+theorem evalPark_rel (X : (String → Nat → Option DErr) → ExFn) (coll : String → Nat → Option DErr)
+    (hX : ExLawful X coll) (env row : DRow) (e : DE) :
+    (parkV (X coll) env row e = none ∧ parkV (X (fun _ _ => none)) env row e = none ∧
+      evalV (X coll) env row e = evalV (X (fun _ _ => none)) env row e) ∨
+    (∃ er, parkV (X coll) env row e = some er ∧
+      (parkV (X (fun _ _ => none)) env row e = some er ∨ er.isLimit = true)) := by
+  induction e with
+  | lit v => left; exact ⟨rfl, rfl, rfl⟩
+  | var x => left; exact ⟨rfl, rfl, rfl⟩
+  | toBoolean e ih | toInteger e ih | not e ih | isNull e ih | isNotNull e ih | single e ih =>
+    simp only [parkV, evalV]
+    rcases ih with ⟨h1, h2, h3⟩ | h
+    · exact Or.inl ⟨h1, h2, by rw [h3]⟩
+    · exact Or.inr h
+  | eq a b iha ihb | lt a b iha ihb | gt a b iha ihb | and a b iha ihb | or a b iha ihb
+  | add a b iha ihb | mod a b iha ihb | range a b iha ihb =>
+    simp only [parkV, evalV]
+    rcases iha with ⟨a1, a2, a3⟩ | ⟨er, a1, a2⟩
+    · rcases ihb with ⟨b1, b2, b3⟩ | ⟨er, b1, b2⟩
+      · left; rw [a1, a2, b1, b2, a3, b3]; exact ⟨rfl, rfl, rfl⟩
+      · right; rw [a1, a2]; exact ⟨er, by simpa using b1, by simpa using b2⟩
+    · right
+      refine ⟨er, by rw [a1]; rfl, ?_⟩
+      rcases a2 with a2 | a2
+      · left; rw [a2]; rfl
+      · right; exact a2
+  | existsSub i =>
+    simp only [parkV, evalV]
+    rcases hX i env row with h | ⟨er, he, hl⟩
+    · rw [h]
+      cases X (fun _ _ => none) i env row with
+      | has b => left; exact ⟨rfl, rfl, rfl⟩
+      | failed er => right; exact ⟨er, rfl, Or.inl rfl⟩
+      | swallowed => left; exact ⟨rfl, rfl, rfl⟩
+    · rw [he]; right; exact ⟨er, rfl, Or.inr hl⟩
+  | caseWhen c t e ihc iht ihe =>
+    simp only [parkV, evalV]
+    rcases ihc with ⟨c1, c2, c3⟩ | ⟨er, c1, c2⟩
+    · rw [c1, c2, c3]
+      simp only [firstSome_none]
+      split
+      · exact iht
+      · exact ihe
+    · right
+      refine ⟨er, by rw [c1]; rfl, ?_⟩
+      rcases c2 with c2 | c2
+      · left; rw [c2]; rfl
+      · right; exact c2
+
+theorem parkV_rel (X : (String → Nat → Option DErr) → ExFn) (coll : String → Nat → Option DErr)
+    (hX : ExLawful X coll) (env row : DRow) (e : DE) :
+    parkV (X coll) env row e = parkV (X (fun _ _ => none)) env row e ∨
+      ∃ er, parkV (X coll) env row e = some er ∧ er.isLimit = true := by
+  rcases evalPark_rel X coll hX env row e with ⟨h1, h2, _⟩ | ⟨er, h1, h2 | h2⟩
+  · left; rw [h1, h2]
+  · left; rw [h1, h2]
+  · right; exact ⟨er, h1, h2⟩
+
+theorem evalV_eq_of_no_park (X : (String → Nat → Option DErr) → ExFn) (coll : String → Nat → Option DErr)
+    (hX : ExLawful X coll) (env row : DRow) (e : DE) (h : parkV (X coll) env row e = none) :
+    evalV (X coll) env row e = evalV (X (fun _ _ => none)) env row e := by
+  rcases evalPark_rel X coll hX env row e with ⟨_, _, h3⟩ | ⟨er, h1, _⟩
+  · exact h3
+  · rw [h] at h1; cases h1
+
+theorem aggValue_lim (X : (String → Nat → Option DErr) → ExFn) (coll : String → Nat → Option DErr)
+    (hc : CollLawful coll) (hX : ExLawful X coll) (env : DRow) (rows : List DRow) (a : DAgg)
+    (hnp : ∀ e, aggArg a = some e → ∀ r ∈ rows, parkV (X coll) env r e = none) :
+    aggValue (X coll) coll env rows a = aggValue (X (fun _ _ => none)) (fun _ _ => none) env rows a ∨
+      ∃ er, aggValue (X coll) coll env rows a = .error er ∧ er.isLimit = true := by
+  have hmap : ∀ e, aggArg a = some e →
+      rows.map (fun r => evalV (X coll) env r e) = rows.map (fun r => evalV (X (fun _ _ => none)) env r e) := by
+    intro e he
+    apply List.map_congr_left
+    intro r hr
+    exact evalV_eq_of_no_park X coll hX env r e (hnp e he r hr)
   cases a with
+  | countStar => left; rfl
+  | count e => left; simp only [aggValue]; rw [hmap e rfl]
+  | sum e => left; simp only [aggValue]; rw [hmap e rfl]
+  | min e => left; simp only [aggValue]; rw [hmap e rfl]
+  | max e => left; simp only [aggValue]; rw [hmap e rfl]
   | collect e =>
     simp only [aggValue]
-    cases h : coll "Aggregate.collect" (List.filter (fun x => x != dnull) (List.map (fun r => evalV env r e) rows)).length with
+    rw [hmap e rfl]
+    cases h : coll "Aggregate.collect" (List.filter (fun x => x != dnull) (List.map (fun r => evalV (X (fun _ _ => none)) env r e) rows)).length with
     | none => left; rfl
     | some er => right; exact ⟨er, rfl, hc _ _ _ h⟩
-  | _ => left; rfl
 
 theorem forM_lim {β : Type} (fL fU : β → Except DErr Unit)
     (h : ∀ x, fL x = fU x ∨ ∃ e, fL x = .error e ∧ e.isLimit = true) (xs : List β) :
@@ -82,24 +163,71 @@ theorem forM_lim {β : Type} (fL fU : β → Except DErr Unit)
     simp only [List.forM] at ih ⊢
     exact seq_lim _ _ _ _ (h x) ih
 
-/-- the instance is lawful for every collection check whose verdicts are limit errors -/
-theorem dsem_limitLawful (coll : String → Nat → Option DErr) (hc : CollLawful coll) :
-    dsem.LimitLawful coll DErr.isLimit where
-  eval e env r := deval_lim coll hc e env r
+/-- the instance is lawful for every collection check whose verdicts are limit errors and every
+    lawful way the EXISTS subqueries answer -/
+theorem dsemX_limitLawful (X : (String → Nat → Option DErr) → ExFn) (coll : String → Nat → Option DErr)
+    (hc : CollLawful coll) (hX : ExLawful X coll) :
+    (dsemX X).LimitLawful coll DErr.isLimit where
+  park e env r := parkV_rel X coll hX env r e
+  eval e env r hp := by
+    simp only [dsemX, deval] at hp ⊢
+    rcases ensure_lim coll hc env r e with h | ⟨er, he, hl⟩
+    · left; rw [h, evalV_eq_of_no_park X coll hX env r e hp]
+    · right; exact ⟨er, by rw [he], hl⟩
+  aggPark aggs env rows := by
+    simp only [dsemX]
+    apply findSome_lim DErr.isLimit
+    intro a
+    cases aggArg a.1 with
+    | none => left; rfl
+    | some e => exact findSome_lim DErr.isLimit _ _ (fun r => parkV_rel X coll hX env r e) rows
+  aggPark_nil aggs env := by
+    simp only [dsemX]
+    apply List.findSome?_eq_none_iff.2
+    intro a _
+    cases aggArg a.1 <;> rfl
   aggCheck aggs env r := by
-    simp only [dsem]
+    simp only [dsemX]
     apply forM_lim
     intro a
     cases aggArg a.1 with
     | none => left; rfl
     | some e => exact ensure_lim coll hc env r e
-  aggFinal gb aggs env rows := by
-    simp only [dsem, aggFinalD]
-    apply foldlM_lim
-    intro acc a
-    rcases aggValue_lim coll hc env rows a.1 with h | ⟨er, he, hl⟩
-    · left; rw [h]
-    · right; exact ⟨er, by rw [he]; rfl, hl⟩
+  aggFinal gb aggs env rows hp := by
+    simp only [dsemX, aggFinalD] at hp ⊢
+    have hall := List.findSome?_eq_none_iff.1 hp
+    have hstep : ∀ a ∈ aggs, ∀ (acc : DRow),
+        (aggValue (X coll) coll env rows a.1).map (rowSet acc a.2) =
+          (aggValue (X (fun _ _ => none)) (fun _ _ => none) env rows a.1).map (rowSet acc a.2) ∨
+        ∃ er, (aggValue (X coll) coll env rows a.1).map (rowSet acc a.2) = .error er ∧ er.isLimit = true := by
+      intro a ha acc
+      have hnp : ∀ e, aggArg a.1 = some e → ∀ r ∈ rows, parkV (X coll) env r e = none := by
+        intro e he r hr
+        have := hall a ha
+        rw [he] at this
+        exact (List.findSome?_eq_none_iff.1 this) r hr
+      rcases aggValue_lim X coll hc hX env rows a.1 hnp with h | ⟨er, he, hl⟩
+      · left; rw [h]
+      · right; exact ⟨er, by rw [he]; rfl, hl⟩
+    generalize (List.foldl _ [] gb : DRow) = base
+    clear hp hall
+    induction aggs generalizing base with
+    | nil => left; rfl
+    | cons a as ih =>
+      simp only [List.foldlM_cons]
+      rcases hstep a List.mem_cons_self base with h | ⟨er, he, hl⟩
+      · rw [h]
+        cases (aggValue (X (fun _ _ => none)) (fun _ _ => none) env rows a.1).map (rowSet base a.2) with
+        | error e0 => left; rfl
+        | ok y => simpa only [bind, Except.bind] using ih (fun b hb => hstep b (List.mem_cons_of_mem _ hb)) y
+      · right; exact ⟨er, by simp only [he, bind, Except.bind], hl⟩
+
+theorem noEx_lawful (coll : String → Nat → Option DErr) : ExLawful (fun _ => noEx) coll :=
+  fun _ _ _ => Or.inl rfl
+
+theorem dsem_limitLawful (coll : String → Nat → Option DErr) (hc : CollLawful coll) :
+    dsem.LimitLawful coll DErr.isLimit :=
+  dsemX_limitLawful _ coll hc (noEx_lawful coll)
 
 theorem ofOpts_lawful (o : Opts) (rowFires timeFires : Site → Nat → Bool) :
     (LimEnv.ofOpts DErr.limit o rowFires timeFires).Lawful DErr.isLimit where
@@ -121,15 +249,16 @@ theorem ofOpts_collLawful (o : Opts) (rowFires timeFires : Site → Nat → Bool
   (ofOpts_lawful o rowFires timeFires).coll
 
 /-- `NOT e` / `e IS NULL` of the instance are lawful -/
-theorem dsem_predLawful (coll : String → Nat → Option DErr) : dsem.PredLawful coll DE.not DE.isNull where
+theorem dsem_predLawful (X : (String → Nat → Option DErr) → ExFn) (coll : String → Nat → Option DErr) :
+    (dsemX X).PredLawful coll DE.not DE.isNull where
   not_err p env r e h := by
-    simp only [dsem, deval] at h ⊢
+    simp only [dsemX, deval] at h ⊢
     simp only [ensure]
     cases hp : ensure coll env r p with
     | error e' => rw [hp] at h; exact h
     | ok u => rw [hp] at h; cases h
   not_ok p env r v h := by
-    simp only [dsem, deval] at h ⊢
+    simp only [dsemX, deval] at h ⊢
     simp only [ensure]
     cases hp : ensure coll env r p with
     | error e' => rw [hp] at h; cases h
@@ -138,19 +267,19 @@ theorem dsem_predLawful (coll : String → Nat → Option DErr) : dsem.PredLawfu
       injection h with h; subst h
       refine ⟨_, rfl, ?_⟩
       simp only [evalV]
-      cases hv : evalV env r p with
+      cases hv : evalV (X coll) env r p with
       | list xs => rfl
       | s x => cases x with
         | bool b => cases b <;> rfl
         | _ => rfl
   isNull_err p env r e h := by
-    simp only [dsem, deval] at h ⊢
+    simp only [dsemX, deval] at h ⊢
     simp only [ensure]
     cases hp : ensure coll env r p with
     | error e' => rw [hp] at h; exact h
     | ok u => rw [hp] at h; cases h
   isNull_ok p env r v h := by
-    simp only [dsem, deval] at h ⊢
+    simp only [dsemX, deval] at h ⊢
     simp only [ensure]
     cases hp : ensure coll env r p with
     | error e' => rw [hp] at h; cases h
@@ -159,10 +288,12 @@ theorem dsem_predLawful (coll : String → Nat → Option DErr) : dsem.PredLawfu
       injection h with h; subst h
       refine ⟨_, rfl, ?_⟩
       simp only [evalV]
-      cases hv : evalV env r p with
+      cases hv : evalV (X coll) env r p with
       | list xs => rfl
       | s x => cases x with
         | bool b => cases b <;> rfl
         | _ => rfl
+  not_park p env r := rfl
+  isNull_park p env r := rfl
 
 end Nervus.PlanInst
